@@ -163,8 +163,10 @@ func (sc *Scheduler) Schedule(ctx context.Context, g *ExecutionGraph, done chan 
 				defer verifPoint("worker.tail", node)
 				verifPoint("worker.loopchk", node)
 
+				executed := false
 			ExecRepeat:
 				for setupSucceed && !sc.isCanceled() {
+					executed = true
 					verifPoint("worker.exec", node)
 					execErr := sc.execNode(ctx, node)
 					verifPoint("worker.post", node)
@@ -223,7 +225,12 @@ func (sc *Scheduler) Schedule(ctx context.Context, g *ExecutionGraph, done chan 
 				}
 				// finish the node
 				if node.State().Status == NodeStatusRunning {
-					node.setStatus(NodeStatusSuccess)
+					if executed {
+						node.setStatus(NodeStatusSuccess)
+					} else {
+						// the run was canceled before the step was executed
+						node.setStatus(NodeStatusCancel)
+					}
 				}
 				if err := sc.teardownNode(node); err != nil {
 					sc.setLastError(err)
